@@ -165,6 +165,7 @@ class SimTransport(asyncio.Transport):
         self.writes = []          # (virtual time, bytes)
         self.dropped_writes = 0
         self.write_raises = None  # exception to raise on write
+        self.pause_on_write = False   # call protocol.pause_writing() from inside the next write()
         self.conn_lost_scheduled = False
         self.made = False
 
@@ -176,6 +177,11 @@ class SimTransport(asyncio.Transport):
             self.dropped_writes += 1
             return
         self.writes.append((self.loop.time(), bytes(data)))
+        if self.pause_on_write:
+            # the peer has stopped reading: this write takes the buffer over its high-water mark, and asyncio tells the protocol
+            # so from inside write() (_maybe_pause_protocol)
+            self.pause_on_write = False
+            self.protocol.pause_writing()
 
     def is_closing(self):
         return self.closing
